@@ -4,11 +4,17 @@ driver ops in RunIO.lean).  Cases:
   {"op": "emit",  "tg", "fmt", "blanks", "min", "max", "minlen"}   text written by _prepTgForSaving + the text emitters
   {"op": "prep",  "tg", "blanks", "min", "max", "minlen"}          the prepared tiers (fill-in, sliver absorption)
   {"op": "parse", "text", "iei"}                                   what the text parsers return (numerals as strings)
+  {"op": "emitjson", "tg", "fmt", "blanks", "min", "max", "minlen"} text of the two JSON formats (lean/PraatModel/Json.lean); "rawdict": the
+                                                                   dictionary is built without the Textgrid class (duplicate names)
+  {"op": "parsejson", "text", "iei"}                               what parseTextgridStr returns on JSON (numbers as numerals; a document that
+                                                                   json.loads accepts but that does not follow a README schema = "err Schema")
+  {"op": "u_jsonstr" | "u_jsonnum" | "u_jsondoc", "s"}             json.dumps of a string / is it a JSON number / json.loads of any document
   {"op": "u_num" | "u_text" | "u_split" | "u_class" | "u_fetchtext" | "u_fetchrow", ...}   matcher units against `re` / the real helpers
 
 Every other op is oracle-only: encode -> 'skip', render -> 'ok skip'.
 """
 import copy
+import json
 import re
 
 from praatio.utilities import textgrid_io
@@ -20,7 +26,125 @@ import tgops
 class SpecError(Exception):
     pass
 
-MODEL_OPS = {"emit", "prep", "parse", "specread", "dupnames", "u_num", "u_text", "u_split", "u_class", "u_fetchtext", "u_fetchrow"}
+
+class SchemaError(Exception):
+    pass
+
+MODEL_OPS = {"emit", "prep", "parse", "specread", "dupnames", "u_num", "u_text", "u_split", "u_class", "u_fetchtext", "u_fetchrow",
+             "emitjson", "parsejson", "u_jsonstr", "u_jsonnum", "u_jsondoc"}
+
+
+def is_pyint(x):
+    return isinstance(x, int) and not isinstance(x, bool)
+
+
+_JSON_CACHE = {}
+
+
+def is_json(text):
+    """does json.loads accept the text (so that parseTextgridStr takes its JSON path)?"""
+    if text not in _JSON_CACHE:
+        if len(_JSON_CACHE) > 20000:
+            _JSON_CACHE.clear()
+        try:
+            json.loads(text)
+            _JSON_CACHE[text] = True
+        except ValueError:
+            _JSON_CACHE[text] = False
+    return _JSON_CACHE[text]
+
+
+_SURR_CACHE = {}
+
+
+def lone_surrogate(text):
+    """does json.loads turn the text into something holding a lone surrogate (an escaped one: "\\ud800")?  CPython accepts
+    such documents and builds a str that is not Unicode text; a Lean Char cannot hold it and the model rejects the document
+    (its one deliberate deviation, lean/PraatModel/Json.lean) - such inputs are outside the compared domain"""
+    if text not in _SURR_CACHE:
+        if len(_SURR_CACHE) > 20000:
+            _SURR_CACHE.clear()
+        found = [False]
+
+        def walk(v):
+            if isinstance(v, str):
+                if any(0xD800 <= ord(ch) <= 0xDFFF for ch in v):
+                    found[0] = True
+            elif isinstance(v, list):
+                for x in v:
+                    walk(x)
+            elif isinstance(v, dict):
+                for k, x in v.items():
+                    walk(k)
+                    walk(x)
+        try:
+            walk(json.loads(text))
+        except (ValueError, RecursionError):
+            pass
+        _SURR_CACHE[text] = found[0]
+    return _SURR_CACHE[text]
+
+
+def numeral(x):
+    """the numeral json.dumps writes for a Python number"""
+    return str(x) if is_pyint(x) else float.__repr__(float(x))
+
+
+def canon_numeral(t):
+    """numerals are compared as the Python numbers json.loads makes of them: int or float, then the value"""
+    if t and all(ch in "-0123456789" for ch in t):
+        return str(int(t))
+    return repr(float(t))
+
+
+def schema_ok(d):
+    """does a dictionary returned by parseTextgridStr follow one of the README schemas (after the up-conversion)?"""
+    def isnum(x):
+        return isinstance(x, (int, float)) and not isinstance(x, bool)
+    if not (isinstance(d, dict) and isnum(d.get("xmin")) and isnum(d.get("xmax")) and isinstance(d.get("tiers"), list)):
+        return False
+    for t in d["tiers"]:
+        if not (isinstance(t, dict) and t.get("class") in ("IntervalTier", "TextTier") and isinstance(t.get("name"), str) and
+                isnum(t.get("xmin")) and isnum(t.get("xmax")) and isinstance(t.get("entries"), list)):
+            return False
+        k = 3 if t["class"] == "IntervalTier" else 2
+        for e in t["entries"]:
+            if not (isinstance(e, list) and len(e) == k and all(isnum(x) for x in e[:-1]) and isinstance(e[-1], str)):
+                return False
+    return True
+
+
+class _Num(str):
+    pass
+
+
+class _Obj:
+    def __init__(self, pairs):
+        self.pairs = pairs
+
+
+def doc_canon(text):
+    """json.loads with every number kept as its numeral and every object as its ordered pair list, written back with the
+    default separators"""
+    v = json.loads(text, parse_float=_Num, parse_int=_Num, parse_constant=_Num, object_pairs_hook=_Obj)
+
+    def r(v):
+        if isinstance(v, _Num):
+            return str(v)
+        if isinstance(v, str):
+            return json.dumps(v, ensure_ascii=False)
+        if v is None:
+            return "null"
+        if v is True:
+            return "true"
+        if v is False:
+            return "false"
+        if isinstance(v, list):
+            return "[" + ", ".join(r(x) for x in v) + "]"
+        if isinstance(v, _Obj):
+            return "{" + ", ".join(json.dumps(k, ensure_ascii=False) + ": " + r(x) for k, x in v.pairs) + "}"
+        raise TypeError(type(v))
+    return r(v)
 
 
 def times_of(c):
@@ -46,6 +170,18 @@ def encode(c, enc):
         return f"emit {c['fmt']} {head} {len(table)} {tab}".rstrip()
     if op == "parse":
         return f"parse {enc.s(c['text'])} {enc.b(c['iei'])}"
+    if op == "emitjson":
+        head = f"{tgops.enc_tg(enc, c['tg'])} {enc.b(c['blanks'])} {enc.otime(c.get('min'))} {enc.otime(c.get('max'))} {enc.otime(c.get('minlen'))}"
+        ints = " ".join(enc.b(is_pyint(x)) for x in (c["tg"]["lo"], c["tg"]["hi"], c.get("min"), c.get("max")))
+        import struct
+        table = {struct.pack("<d", x): x for x in times_of(c) + [float(x) for x in (c["tg"]["lo"], c["tg"]["hi"], c.get("min"), c.get("max"))
+                                                                 if x is not None]}.values()    # by bit pattern: -0.0 is not 0.0 here
+        tab = " ".join(f"{enc.time(x)} {enc.time(float(int(x)))} {enc.s(repr(x))} {enc.s('%d' % x)}" for x in table)
+        return f"emitjson {c['fmt']} {head} {ints} {len(table)} {tab}".rstrip()
+    if op == "parsejson":
+        return f"parsejson {enc.s(c['text'])} {enc.b(c['iei'])}"
+    if op in ("u_jsonstr", "u_jsonnum", "u_jsondoc"):
+        return f"{op} {enc.s(c['s'])}"
     if op == "specread":
         return f"specread {enc.s(c['text'])}"
     if op == "dupnames":
@@ -103,6 +239,48 @@ def impl(c):
         return T.call(run)
     if op == "parse":
         return impl_parse(c["text"], c["iei"])
+    if op == "emitjson":
+        if c.get("rawdict"):
+            # the dictionary as _tgToDictionary would build it, without the Textgrid class (which refuses duplicate names)
+            s = c["tg"]
+            d = {"xmin": s["lo"], "xmax": s["hi"],
+                 "tiers": [{"class": "IntervalTier" if t["k"] == "I" else "TextTier", "name": t["name"], "xmin": float(t["lo"]), "xmax": float(t["hi"]),
+                            "entries": [tuple([float(x) for x in e[:-1]] + [e[-1]]) for e in t["es"]]} for t in s["tiers"]]}
+        else:
+            d = dtextgrid._tgToDictionary(tgops.build(c["tg"]))
+        return T.call(lambda: textgrid_io.getTextgridAsStr(d, c["fmt"], c["blanks"], c.get("min"), c.get("max"), c.get("minlen")))
+    if op == "parsejson":
+        if lone_surrogate(c["text"]):
+            return ("ok", None)
+        if not is_json(c["text"]):
+            return impl_parse(c["text"], c["iei"])
+
+        def run():
+            if not schema_ok(textgrid_io.parseTextgridStr(c["text"], True)):
+                raise SchemaError()
+            d = textgrid_io.parseTextgridStr(c["text"], c["iei"])
+            return {"xmin": d["xmin"], "xmax": d["xmax"],
+                    "tiers": [{"class": t["class"], "name": t["name"], "xmin": t["xmin"], "xmax": t["xmax"],
+                               "entries": [list(e) for e in t["entries"]]} for t in d["tiers"]]}
+        r = T.call(run)
+        # valid JSON off the schemas: praatio raises KeyError / AttributeError / TypeError / IndexError, or hands on a malformed
+        # dictionary; the (strict) model says "Schema" for all of these
+        if r[0] == "err" and r[1] in ("KeyError", "AttributeError", "TypeError", "IndexError", "SchemaError"):
+            return ("err", "Schema", False)
+        return r
+    if op == "u_jsonstr":
+        return ("ok", json.dumps(c["s"], ensure_ascii=False))
+    if op == "u_jsonnum":
+        s = c["s"]
+        try:
+            v = json.loads(s)
+        except ValueError:
+            return ("ok", False)
+        return ("ok", s == s.strip(" \t\n\r") and type(v) in (int, float) and s not in ("NaN", "Infinity", "-Infinity"))
+    if op == "u_jsondoc":
+        if lone_surrogate(c["s"]):
+            return ("ok", None)
+        return T.call(lambda: doc_canon(c["s"]))
     if op == "specread":
         import ioops
 
@@ -146,11 +324,22 @@ def render(c, r, enc):
     if r[0] == "err":
         return "err " + r[1]
     v = r[1]
-    if op == "emit":
+    if op in ("parsejson", "u_jsondoc") and lone_surrogate(c["text" if op == "parsejson" else "s"]):
+        return "outside lone-surrogate"
+    if op in ("emit", "emitjson", "u_jsonstr", "u_jsondoc"):
         return "ok " + enc.s(v)
+    if op == "u_jsonnum":
+        return "ok true" if v else "ok false"
+    if op == "parsejson" and is_json(c["text"]):
+        out = [enc.s(numeral(v["xmin"])), enc.s(numeral(v["xmax"])), str(len(v["tiers"]))]
+        for t in v["tiers"]:
+            out += [enc.s(t["class"]), enc.s(t["name"]), enc.s(numeral(t["xmin"])), enc.s(numeral(t["xmax"])), str(len(t["entries"]))]
+            for e in t["entries"]:
+                out += [str(len(e))] + [enc.s(numeral(x)) for x in e[:-1]] + [enc.s(e[-1])]
+        return "ok " + " ".join(out)
     if op == "prep":
         return "ok " + tgops.enc_tg(enc, v)
-    if op == "parse":
+    if op in ("parse", "parsejson"):
         out = [enc.s(repr(float(v["xmin"]))), enc.s(repr(float(v["xmax"]))), str(len(v["tiers"]))]
         for t in v["tiers"]:
             out += [enc.s(t["class"]), enc.s(t["name"]), enc.s(repr(float(t["xmin"]))), enc.s(repr(float(t["xmax"]))), str(len(t["entries"]))]
@@ -182,11 +371,31 @@ def canon(c, line):
     float()s it; error cases of keyword-bearing files are compared only as 'raises'"""
     if c.get("anyerr") and line.startswith("err"):
         return "err"
-    if c["op"] not in ("parse", "specread") or not line.startswith("ok "):
+    if c["op"] in ("parsejson", "u_jsondoc") and lone_surrogate(c["text" if c["op"] == "parsejson" else "s"]):
+        return "outside lone-surrogate"
+    if c["op"] not in ("parse", "specread", "parsejson") or not line.startswith("ok "):
         return line
     spec = c["op"] == "specread"
     from proto import unhex, Enc
     toks = line.split(" ")[1:]
+    if c["op"] == "parsejson" and is_json(c["text"]):
+        # every numeral becomes the Python number json.loads makes of it (int or float), labels stay as they are
+        def cn(tok):
+            return Enc.s(canon_numeral(unhex(tok)))
+        try:
+            out = [cn(toks[0]), cn(toks[1]), toks[2]]
+            p = 3
+            for _ in range(int(toks[2])):
+                n = int(toks[p + 4])
+                out += [toks[p], toks[p + 1], cn(toks[p + 2]), cn(toks[p + 3]), toks[p + 4]]
+                p += 5
+                for _ in range(n):
+                    k = int(toks[p])
+                    out += [toks[p]] + [cn(x) for x in toks[p + 1:p + k]] + [toks[p + k]]
+                    p += 1 + k
+            return "ok " + " ".join(out)
+        except (ValueError, IndexError):
+            return "bad-canon " + line
 
     def fl(tok):
         return Enc.s(repr(float(unhex(tok))))
